@@ -28,7 +28,7 @@ import json
 import vlib
 
 LEVEL = "proof"
-IMPORTS = ["TV.Model.Lex", "TV.Model.Grammar"]
+IMPORTS = ["Coq.Numbers.Cyclic.Int63.Uint63", "TV.Model.Lex", "TV.Model.Grammar"]
 GRAMMARS = ["eq", "dir", "rt", "st", "lv"]
 GNAME = {"eq": "Einsum expression", "dir": "partitioning directive", "rt": "rank tuple",
          "st": "spacetime stamp", "lv": "architecture level name"}
@@ -57,6 +57,21 @@ def cs(s):
     if len(out) == 1 and out[0].startswith('"'):
         return out[0]
     return "(" + " ++ ".join(out) + ")"
+
+
+def cp(s):
+    """Python str -> Gallina string term, packed 7 bytes per primitive integer (Model/Grammar.v `up`)."""
+    b = s.encode("utf-8")
+    if not b:
+        return '""'
+    ws = []
+    for i in range(0, len(b), 7):
+        chunk = b[i:i + 7]
+        w = len(chunk) << 56
+        for j, x in enumerate(chunk):
+            w |= x << (8 * j)
+        ws.append(str(w))
+    return "(up [%s]%%uint63)" % "; ".join(ws)
 
 
 def cl(items):
@@ -268,7 +283,7 @@ def rgap(rng, style):
 
 
 class G:
-    """One grammar: gen(rng) -> tree; toks(tree) -> token texts; view(tree); coq(tree)."""
+    """One grammar: gen(rng) -> tree; toks(tree) -> token texts; view(tree)."""
 
 
 # ---- Einsum expressions: tree = (out, ranks, terms)
@@ -360,28 +375,9 @@ def view_eq(e):
     return e[0] + v_ranks(e[1]) + "=" + "+".join(v_term(t) for t in e[2])
 
 
-def c_iterm(t):
-    if t[0] == "j":
-        return "IJust %s" % cs(t[1])
-    return "ITimes %s %s %s" % ("true" if t[1] else "false", cs(t[2]), cs(t[3]))
 
 
-def c_ranks(rs):
-    return cl(cl(c_iterm(t) for t in e) for e in rs)
 
-
-def c_factor(f):
-    return "FVar %s" % cs(f[1]) if f[0] == "v" else "FTensor %s %s" % (cs(f[1]), c_ranks(f[2]))
-
-
-def c_term(t):
-    if t[0] == "take":
-        return "TTake %s %s" % (cl(c_factor(f) for f in t[1]), cs(t[2]))
-    return "TTimes %s" % cl(c_factor(f) for f in t[1])
-
-
-def coq_eq(e):
-    return "(mkEinsum %s %s %s)" % (cs(e[0]), c_ranks(e[1]), cl(c_term(t) for t in e[2]))
 
 
 # ---- directives: ("nway", sz) ("uocc", leader, sz) ("ushape", sz) ("flatten",) ("follow", leader); sz = ("i", ds)|("s", x)
@@ -429,21 +425,6 @@ def view_dir(d):
     return "flatten()"
 
 
-def c_size(sz):
-    return "(SzInt %s)" % cs(sz[1]) if sz[0] == "i" else "(SzName %s)" % cs(sz[1])
-
-
-def coq_dir(d):
-    k = d[0]
-    if k == "nway":
-        return "(DNway %s)" % c_size(d[1])
-    if k == "ushape":
-        return "(DUShape %s)" % c_size(d[1])
-    if k == "uocc":
-        return "(DUOcc %s %s)" % (cs(d[1]), c_size(d[2]))
-    if k == "follow":
-        return "(DFollow %s)" % cs(d[1])
-    return "DFlatten"
 
 
 # ---- rank tuples: ("one", x) | ("many", [x...])
@@ -461,9 +442,6 @@ def view_rt(r):
     return "rank(%s)" % r[1] if r[0] == "one" else "ranks(%s)" % ",".join(r[1])
 
 
-def coq_rt(r):
-    return "(RSingle %s)" % cs(r[1]) if r[0] == "one" else "(RTuple %s)" % cl(cs(x) for x in r[1])
-
 
 # ---- stamps: ("bare"|"pos"|"coord", x)
 def gen_st(rng):
@@ -477,9 +455,6 @@ def toks_st(a):
 def view_st(a):
     return "%s(%s)" % ("coord" if a[0] == "coord" else "pos", a[1])
 
-
-def coq_st(a):
-    return "(%s %s)" % ({"bare": "StBare", "pos": "StPos", "coord": "StCoord"}[a[0]], cs(a[1]))
 
 
 # ---- level names: ("single", x) | ("multiple", x, ds)
@@ -497,13 +472,9 @@ def view_lv(a):
     return "%s#%d" % (a[1], 1 if a[0] == "single" else int(a[2]) + 1)
 
 
-def coq_lv(a):
-    return "(LSingle %s)" % cs(a[1]) if a[0] == "single" else "(LMultiple %s %s)" % (cs(a[1]), cs(a[2]))
 
-
-GEN = {"eq": (gen_eq, toks_eq, view_eq, coq_eq), "dir": (gen_dir, toks_dir, view_dir, coq_dir),
-       "rt": (gen_rt, toks_rt, view_rt, coq_rt), "st": (gen_st, toks_st, view_st, coq_st),
-       "lv": (gen_lv, toks_lv, view_lv, coq_lv)}
+GEN = {"eq": (gen_eq, toks_eq, view_eq), "dir": (gen_dir, toks_dir, view_dir), "rt": (gen_rt, toks_rt, view_rt),
+       "st": (gen_st, toks_st, view_st), "lv": (gen_lv, toks_lv, view_lv)}
 
 
 def lay_out(toks, gaps):
@@ -515,13 +486,13 @@ def enc_ws(gaps):
 
 
 def gen_case(g, rng):
-    gen, toks, view, coq = GEN[g]
+    gen, toks, view = GEN[g]
     a = gen(rng)
     tk = toks(a)
     style = rng.choice(["compact", "spaced", "random", "random", "random"])
     gaps = [rgap(rng, style) for _ in range(len(tk) + 1)]
     return {"g": g, "kind": "gen", "s": lay_out(tk, gaps), "tree": a, "toks": tk, "gaps": gaps, "view": view(a),
-            "coq": coq(a), "ws": enc_ws(gaps)}
+            "ws": enc_ws(gaps)}
 
 
 # ----------------------------------------------------------------------------------------------
@@ -709,8 +680,8 @@ def population(ctx):
 def model_expr(c):
     g = c["g"]
     if c["kind"] == "gen":
-        return "(chk_%s %s %s %s)" % (g, c["coq"], cs(c["ws"]), cs(c["s"]))
-    return "(run_%s %s)" % (g, cs(c["s"]))
+        return "(chk_%s %s %s %s)" % (g, cp("".join(c["toks"])), cp(c["ws"]), cp(c["s"]))
+    return "(run_%s %s)" % (g, cp(c["s"]))
 
 
 def model_eval(tag, cases):
@@ -720,7 +691,7 @@ def model_eval(tag, cases):
 
 
 def model_run_strings(tag, g, strs):
-    return vlib.coq_eval_lines(tag, IMPORTS, "", ["(run_%s %s)" % (g, cs(s)) for s in strs], shard=400)
+    return vlib.coq_eval_lines(tag, IMPORTS, "", ["(run_%s %s)" % (g, cp(s)) for s in strs], shard=400)
 
 
 def shrink(g, s, rounds=14):
@@ -897,10 +868,19 @@ def routes(ctx, gens):
 # ----------------------------------------------------------------------------------------------
 
 def run(ctx):
+    import time
+    t0 = time.time()
+    phase = {}
     cases = population(ctx)
+    phase["generate"] = round(time.time() - t0, 1)
+    t0 = time.time()
     for c in cases:
         c["code"], c["detail"] = observe(c["g"], c["s"])
+    phase["real_parsers"] = round(time.time() - t0, 1)
+    t0 = time.time()
     res = model_eval("c17", cases)
+    phase["kernel_evaluation"] = round(time.time() - t0, 1)
+    t0 = time.time()
     stats = {g: {"strings": 0, "generated": 0, "near_miss": 0, "enumerated": 0, "fixed": 0, "code_accepts": 0, "code_rejects": 0,
                  "near_miss_accepted": 0, "rejected_by": {}, "edits": {}} for g in GRAMMARS}
     views = set()
@@ -913,7 +893,7 @@ def run(ctx):
         if c["kind"] == "gen":
             flags, _, model = r.partition("|")
             if flags != "PWB":
-                raise AssertionError("generator and Model/Grammar.v disagree on the printed string (flags %s) for %r / %s" % (flags, c["s"], c["coq"]))
+                raise AssertionError("generator and Model/Grammar.v disagree on the printed string (flags %s) for %r (tokens %r)" % (flags, c["s"], c["toks"]))
             if model != c["view"]:
                 raise AssertionError("model parse of a generated string differs from the generating tree: %r -> %s, expected %s" % (c["s"], model, c["view"]))
         else:
@@ -951,6 +931,7 @@ def run(ctx):
              "class": cls, "how": c.get("how", c["kind"])})
     gens = [c for c in cases if c["kind"] == "gen"]
     done = routes(ctx, gens)
+    phase["compare_and_routes"] = round(time.time() - t0, 1)
     # distributions of the generated Einsums
     eqs = [c["tree"] for c in gens if c["g"] == "eq"]
     dist = {
@@ -981,6 +962,7 @@ def run(ctx):
         "distinct_nontrivial": len(views),
         "per_grammar": stats,
         "section_batches": done,
+        "phase_seconds": phase,
         "distributions": dist,
         "rule": "per grammar: strings printed from seeded random syntax trees (<=3 terms x <=3 factors x <=4 index expressions x <=3 index terms; "
                 "names incl. the keywords; numerals incl. 0, leading zeros, 30-digit values) with compact/spaced/random blank+tab layout; "
